@@ -25,6 +25,7 @@ Ev(cb, a, b, n) == [cb |-> cb, a |-> a, b |-> b, n |-> n]
 FromGrammar(o) ==
     CASE o.cb = "decl_parameter" -> <<Ev("decl_parameter", o.a[1].s, "", 0)>>
       [] o.cb = "decl_func_begin" -> <<Ev("decl_func_begin", o.a[1].s, "", 0)>>
+      [] o.cb = "decl_func_end" -> <<Ev("decl_func_end", "", "", 0)>>
       [] o.cb = "proc_begin" -> <<Ev("proc_begin", o.a[1].s, "", 0)>>
       [] o.cb = "proc_end" -> <<Ev("proc_end", "", "", 0)>>
       [] o.cb = "proc_location" -> <<Ev("proc_location", o.a[1].s, "", 0)>>
